@@ -9245,6 +9245,7 @@ SoPlexBase<R>::SoPlexBase()
 
 #ifdef SOPLEX_WITH_MPFR
    // set initial precision
+   SPX_VERIF_POINT("precision:init");
    BP::default_precision(_initialPrecision);
 
    _boostedSolver.setOutstream(spxout);
